@@ -40,8 +40,8 @@ CLAIMED = {
         text="ares_getaddrinfo/ares_gethostbyname under AF_INET/AF_INET6/AF_UNSPEC with per-family outcomes (answer, CNAME chains, NODATA, NXDOMAIN, SERVFAIL, silence, truncation), hosts-file entries in a virtual file, lookups order 'bf'/'fb', and loss/duplication/reordering between the A and AAAA sub-queries. Every address carries a marker naming the packet or hosts line it came from; the delivered multiset of addresses, their families, TTL bounds, the canonical name/alias chain and the status must equal what the reference combination of the two sub-answers allows.",
         ref="5 C13", tech=TECH + "address-multiset oracle against a reference combination of per-family sub-answers", note=NOTE_COMMON + " An IPv4 literal looked up with AF_INET6 is not judged (legacy behaviour outside the statement)."),
     'C14': dict(
-        text="Fault enumeration over a seeded family of short scenarios (channel init with options and virtual system files; every request kind driven to completion against a healthy virtual network, UDP and TCP-upgraded; cache hits; search lists; hosts-file lookups; server-list edits, reinit, cancel, dup, save-options; destroy). Each scenario is executed once failure-free to count its N allocator calls, then once per n in 1..N with exactly the n-th allocation returning NULL (quick tier: at most 500 evenly spread n per scenario). Verdict per execution: no sanitizer report; allocator ledger empty and no foreign free after ares_destroy + ares_library_cleanup; every accepted request got exactly one callback; a request that still reports success has the same answer shape as in the failure-free execution; and after the failure a fresh query on the same channel against the healthy network completes.",
-        ref="5 C14", tech=TECH + "exhaustive-per-scenario enumeration of the failing allocation index with ledger, differential and usability oracles + ASan/UBSan", note=NOTE_COMMON + " The allocator seam is the public ares_library_init_mem(); realloc failures keep the original block. AF_UNSPEC address lookups are excluded from the answer-shape comparison (either half may legitimately be missing)."),
+        text="Fault enumeration over a seeded family of short scenarios (channel init with options and virtual system files; every request kind driven to completion against a healthy virtual network, UDP and TCP-upgraded; cache hits; search lists; hosts-file lookups; server-list edits, reinit, cancel, dup, save-options; destroy). Each scenario is executed once failure-free to count its N allocator calls, then once per n in 1..N with exactly the n-th allocation returning NULL (quick tier: at most 500 evenly spread n per scenario). Verdict per execution: no sanitizer report; allocator ledger empty and no foreign free after ares_destroy + ares_library_cleanup; every accepted request got exactly one callback; a request that still reports success has the same answer shape as in the failure-free execution; and after the failure a fresh query on the same channel against the healthy network completes. A second part repeats the enumeration with the library's event thread (Mode B: event thread on epoll/poll/select plus 1..2 caller threads under the baton scheduler, one process per failing index), where allocations made by the library's own threads are failed too and a hang of ares_destroy, a busy loop or a deaf event thread count as violations.",
+        ref="5 C14", tech=TECH + "exhaustive-per-scenario enumeration of the failing allocation index with ledger, differential and usability oracles + ASan/UBSan", note=NOTE_COMMON + " The allocator seam is the public ares_library_init_mem(); realloc failures keep the original block. AF_UNSPEC address lookups are excluded from the answer-shape comparison (either half may legitimately be missing). One known finding (KF-C14-1: a socket-state change lost for lack of memory in the event thread)."),
     'C16': dict(
         text="Scoped as in DESIGN.md: seeded option masks and values (every option independently set or left to the system), server sets (IPv4/IPv6/link-local, default/equal/differing UDP and TCP ports) through five encodings (CSV incl. dns:// URIs and %iface, legacy IPv4 option, system files, address nodes, address+port nodes), sortlists and domains, against virtual resolv.conf/nsswitch/environment contents that disagree with every user-set field. Plans interleave traffic with ares_dup, ares_save_options -> ares_init_options, ares_get_servers_csv -> ares_set_servers_ports_csv on a fresh channel, rewrites of the virtual system files followed by ares_reinit, and explicit setters. After init and after every step each user-set field and the user-set server list must still be in force; copies are compared with the original field by field (effective settings, server list with ports and interface, saved options and mask); the CSV text must be a fixed point of get -> set -> get.",
         ref="5 C16", tech=TECH + "reference comparison of original vs copy and of effective vs user-supplied settings after every step", note=NOTE_COMMON + " Effective values of options that ares_save_options cannot report are read (never written) through sim/peek.c. The options structure carries IPv4 servers without ports only (documented): save->init server comparison is limited to that. Servers are compared as sets once the original has recorded a server failure (public getters list them in priority order). One known finding (KF-C16-1, stale system-derived settings after reinit)."),
